@@ -104,7 +104,7 @@ def main():
         c.evaluations += len(done)
         c.traces_validated += len(done)
         jl = [c02_judge_line(x) for x in done]
-        rc, jout, jerr = c.run_lines(model, jl, timeout=3000)
+        rc, jout, jerr = c.run_lines(model, jl, timeout=3000) if jl else (0, [], "")
         if len(jout) != len(jl):
             c.broke("judge", f"model driver answered {len(jout)} of {len(jl)} judge lines: {jerr[-800:]}")
         bad, diffs = [], []
